@@ -810,7 +810,7 @@ package psatoken
 
 //@ func (*P1Claims).UnmarshalCBOR
 //@   property C04 C09 C07 C05 C18 C16
-//@   requires c != nil && wfComps(c.SwComponents) && dm != nil
+//@   requires c != nil && emptyDest(c.SwComponents) && dm != nil
 //@   ensures[ok] (ret == nil) == cborDecP1OK(bytesVal(buf), withField(old(*c), "Profile", nil))
 //@   ensures[value] ret == nil ==> *c == cborDecP1(bytesVal(buf), withField(old(*c), "Profile", nil))
 //@   ensures[fixed] c.CanonicalProfile == old(c.CanonicalProfile) && (c.SwComponents == old(c.SwComponents) || c.SwComponents == nil)
@@ -820,7 +820,7 @@ package psatoken
 
 //@ func (*P2Claims).UnmarshalCBOR
 //@   property C04 C09 C07 C05 C18 C16
-//@   requires c != nil && wfComps(c.SwComponents) && dm != nil
+//@   requires c != nil && emptyDest(c.SwComponents) && dm != nil
 //@   ensures[ok] (ret == nil) == cborDecP2OK(bytesVal(buf), withField(old(*c), "Profile", nil))
 //@   ensures[value] ret == nil ==> *c == cborDecP2(bytesVal(buf), withField(old(*c), "Profile", nil))
 //@   ensures[fixed] c.CanonicalProfile == old(c.CanonicalProfile) && (c.SwComponents == old(c.SwComponents) || c.SwComponents == nil)
@@ -831,7 +831,7 @@ package psatoken
 
 //@ func (*SwComponents[*SwComponent]).UnmarshalCBOR
 //@   property C04 C09 C05 C18
-//@   requires o != nil && dm != nil
+//@   requires o != nil && dm != nil && cap(o.values) == 0
 //@   ensures[ok] (ret == nil) == cborDecCompsOK(bytesVal(v))
 //@   ensures[len] ret == nil ==> len(o.values) == cborDecCompsLen(bytesVal(v))
 //@   ensures[fresh] ret == nil ==> (o.values == nil || fresh(o.values)) && forall(j, 0, len(o.values), o.values[j] == nil || fresh(o.values[j]))
@@ -884,7 +884,7 @@ package psatoken
 
 //@ func (*P1Claims).UnmarshalJSON
 //@   property C12 C07 C05 C18 C16
-//@   requires c != nil && wfComps(c.SwComponents) && true
+//@   requires c != nil && emptyDest(c.SwComponents) && true
 //@   ensures[ok] (ret == nil) == jsonDecP1OK(bytesVal(buf), withField(old(*c), "Profile", nil))
 //@   ensures[value] ret == nil ==> *c == jsonDecP1(bytesVal(buf), withField(old(*c), "Profile", nil))
 //@   ensures[fixed] c.CanonicalProfile == old(c.CanonicalProfile) && (c.SwComponents == old(c.SwComponents) || c.SwComponents == nil)
@@ -894,7 +894,7 @@ package psatoken
 
 //@ func (*P2Claims).UnmarshalJSON
 //@   property C12 C07 C05 C18 C16
-//@   requires c != nil && wfComps(c.SwComponents) && true
+//@   requires c != nil && emptyDest(c.SwComponents) && true
 //@   ensures[ok] (ret == nil) == jsonDecP2OK(bytesVal(buf), withField(old(*c), "Profile", nil))
 //@   ensures[value] ret == nil ==> *c == jsonDecP2(bytesVal(buf), withField(old(*c), "Profile", nil))
 //@   ensures[fixed] c.CanonicalProfile == old(c.CanonicalProfile) && (c.SwComponents == old(c.SwComponents) || c.SwComponents == nil)
@@ -905,7 +905,7 @@ package psatoken
 
 //@ func (*SwComponents[*SwComponent]).UnmarshalJSON
 //@   property C12 C05 C18
-//@   requires o != nil && true
+//@   requires o != nil && cap(o.values) == 0
 //@   ensures[ok] (ret == nil) == jsonDecCompsOK(bytesVal(v))
 //@   ensures[len] ret == nil ==> len(o.values) == jsonDecCompsLen(bytesVal(v))
 //@   ensures[fresh] ret == nil ==> (o.values == nil || fresh(o.values)) && forall(j, 0, len(o.values), o.values[j] == nil || fresh(o.values[j]))
